@@ -163,6 +163,9 @@ def c18(payload):
                     if base is None:
                         r['skipped'] = True; out.append(r); continue
                     argv, fam = _restrict_loads(base, rng)
+                    if rng.random() < 0.5 and argv[0] == '-f':
+                        # the BASIC input carries the frequency with 12 digits
+                        argv[1] = repr(float('%.*g' % (rng.choice([7, 9, 10, 11]), rng.uniform(3, 30))))
                     # re-attach the remaining lumped loads
                     err = io.StringIO()
                     m0 = main([a for a in argv if not a.startswith(('--load=', '--rlc-load', '--trap-load', '--laplace-load'))], f_err=err, return_mininec=True)
